@@ -74,7 +74,11 @@ class DirDBM:
         Encode a key so it can be used as a filename.
         """
         # NOTE: '_' is NOT in the base64 alphabet!
-        return base64.encodebytes(k).replace(b"\n", b"_").replace(b"/", b"-")
+        # encodebytes() ends every non-empty encoding with a newline but returns
+        # b"" for the empty key; an empty file name would denote the database
+        # directory itself, so give the empty key the same terminator.
+        encoded = base64.encodebytes(k) or b"\n"
+        return encoded.replace(b"\n", b"_").replace(b"/", b"-")
 
     def _decode(self, k):
         """
